@@ -199,15 +199,34 @@ func SignEnveloped(doc []byte, kp *KeyPair, alg string, keyInfo bool, afterIssue
 				}
 			}
 			if afterIssuer {
-				signed.RemoveChild(sig)
-				idx := 0
-				for i, c := range signed.Child {
-					if e, ok := c.(*etree.Element); ok && e.Tag == "Issuer" {
-						idx = i + 1
-						break
+				// goxmldsig appends the signature to the Child slice directly (no parent link), so etree's RemoveChild does
+				// not find it: rebuild the child list
+				kids := append([]etree.Token(nil), signed.Child[:n-1]...)
+				fresh := etree.NewElement(signed.Tag)
+				fresh.Space = signed.Space
+				fresh.Attr = append([]etree.Attr(nil), signed.Attr...)
+				placed := false
+				add := func(t etree.Token) {
+					switch x := t.(type) {
+					case *etree.Element:
+						fresh.AddChild(x.Copy())
+					case *etree.CharData:
+						fresh.CreateText(x.Data)
+					case *etree.Comment:
+						fresh.CreateComment(x.Data)
 					}
 				}
-				signed.InsertChildAt(idx, sig)
+				for _, c := range kids {
+					add(c)
+					if e, ok := c.(*etree.Element); ok && e.Tag == "Issuer" && !placed {
+						add(sig)
+						placed = true
+					}
+				}
+				if !placed {
+					add(sig)
+				}
+				signed = fresh
 			}
 		}
 	}
